@@ -161,7 +161,7 @@ claim('C06', 'other',
       'sites), that every clump\'s real size 16 + sum(4 + s_i) stays within the limit whenever each element fits alone '
       'and that elements are carried once and in order (models replayed with real messages of those sizes); (c) the '
       '/d_recv-or-file decision against the real encoded size across the UDP-limit boundary; (d) message and bundle '
-      'framing with SYMBOLIC CONTENT: for 14 (quick) / 22 argument templates over strings, blobs, int32, floats, '
+      'framing with SYMBOLIC CONTENT: for 16 (quick) / 24 argument templates over strings, blobs, int32, floats, '
       'True/False/None/[] coercions, nested message and bundle blobs and array markers, every string / blob length up '
       'to N is forked and EVERY byte value, int and float is a solver variable; the real _build_msg / _build_bundle run '
       'on cell-list proxies of str / bytes, and z3 proves per path: a string with a NUL byte is refused and nothing '
